@@ -116,7 +116,9 @@ type recReporter struct {
 }
 
 func (r *recReporter) note(s string) {
-	if strings.Contains(s, "verif: drop") {
+	if strings.Contains(s, "verif: drop") || !strings.Contains(s, "decod") {
+		// only what the DECODER refuses counts (PacketDecodingError, insufficient data to decode); a connection the producer
+		// closes in the middle of a request (unexpected EOF) is not a malformed request
 		return
 	}
 	r.mu.Lock()
